@@ -173,6 +173,15 @@ def enum_iter_specs(small: bool = False) -> Iterator[dict]:
     for tool in ("zip", "zip_strict", "zip_longest", "chain", "chain_from_iterable", "merge"):
         yield {"tool": tool, "srcs": [], "fns": [None] if tool == "merge" else [], "params": {}}
     yield {"tool": "zip_longest", "srcs": [], "fns": [], "params": {"fillvalue": ["item", 9, "fill"]}}
+    # one single-use iterator passed as two (or three) arguments: the order in which a tool polls its arguments
+    # decides which items land where
+    for n in (0, 1, 2, 3, 4, 5, 6):
+        ks = [k % 3 for k in range(n)]
+        for tool in ("zip", "zip_strict", "zip_longest", "chain", "compress", "merge"):
+            yield {"tool": tool, "srcs": [ks, []], "fns": [None] if tool == "merge" else [], "params": {}, "same": [[0, 1]]}
+        yield {"tool": "map", "srcs": [ks, []], "fns": ["mk"], "params": {}, "same": [[0, 1]]}
+        yield {"tool": "zip", "srcs": [ks, [], []], "fns": [], "params": {}, "same": [[0, 1], [0, 2]]}
+        yield {"tool": "zip_longest", "srcs": [ks, [7, 8], []], "fns": [], "params": {}, "same": [[0, 2]]}
     # length vectors
     for vec in enum_length_vectors(3 if small else 4, 3):
         srcs = [[(i + s) % 2 for i in range(n)] for s, n in enumerate(vec)]
@@ -200,6 +209,8 @@ RAW_EXACT = [0, 1, 2, -1, True, False, 0.5, 2.0, -0.0, ["F", 1, 2], ["F", 3, 1]]
 RAW_INEXACT = [["f", "0.1"], ["f", "0.2"], ["f", "0.3"], ["f", "1e16"], ["f", "-1e16"], ["f", "1.0"], ["f", "1e-16"], 3]
 RAW_UNORDERABLE = [0, 1, "a", "b", None, ["T", 1, 2], 2.5]
 RAW_UNHASHABLE = [0, 1, ["L", 1], "a", ["T", 1, ["L", 2]]]
+RAW_TOUCHY = [["X", 1, None], ["X", 2, None], ["X", 0, None], ["X", 1, None], ["X", 1, "ValueError"], ["X", 3, "KeyError"],
+              ["X", 2, "AttributeError"], ["X", 0, "LookupError"], ["X", 2, "RuntimeError"]]
 RAW_NAN = [["f", "nan"], 1, 2, 0.5, ["f", "nan"]]
 
 
@@ -208,8 +219,26 @@ def raw_seq(rng: random.Random, pool: list, maxlen: int = 6) -> list:
 
 
 def agg_spec(rng: random.Random, name: str, maxlen: int = 8) -> dict:
-    cls = rng.choice(["items", "items", "items", "exact", "inexact", "unorderable", "nan"])
+    cls = rng.choice(["items", "items", "items", "exact", "inexact", "unorderable", "nan", "touchy"])
     spec: dict = {"tool": name, "srcs": [], "fns": [], "params": {}}
+    if cls == "touchy":
+        if name in ("min", "max", "sorted", "nlargest", "nsmallest"):
+            # items whose comparison fails with ValueError / KeyError / ...: the aggregation fails the same way
+            spec["raw"] = True
+            # one failure type per input: WHICH comparison an algorithm makes first is its own business, so with
+            # two different failure types in one input even correct implementations may legitimately disagree
+            exc = rng.choice(["ValueError", "KeyError", "AttributeError", "LookupError", "RuntimeError"])
+            pool = [v for v in RAW_TOUCHY if v[2] is None] + [["X", 1, exc], ["X", 3, exc]]
+            spec["srcs"] = [raw_seq(rng, pool, min(maxlen, 5))]
+            spec["fns"] = [rng.choice([None, None, "ident"])]
+            if name == "sorted" and rng.random() < 0.5:
+                spec["params"]["reverse"] = True
+            if name in ("nlargest", "nsmallest"):
+                spec["params"]["n"] = rng.choice([0, 1, 1, 1, 2, 3])
+            if name in ("min", "max") and rng.random() < 0.3:
+                spec["params"]["default"] = ["none"]
+            return spec
+        cls = "items"
     if name in ("all", "any"):
         if cls in ("items", "unorderable", "nan"):
             spec["srcs"] = [keys_seq(rng, maxlen, 2)]
